@@ -73,6 +73,9 @@ type Config struct {
 	// KeyHook, if non-nil, is called after every step with the current state key;
 	// returning true stops the execution there (state already seen).
 	KeyHook func(key uint64, cost int) bool
+	// KeyWriterProgress makes an operation also observe how far the last writer of its location has run
+	// (finer key; needed when the code under test may touch released objects with plain accesses).
+	KeyWriterProgress bool
 	// KeyNoCur leaves the identity of the running thread out of the state key (sound when no bound
 	// on preemptions is in force: the running thread only matters for the cost of switching).
 	KeyNoCur bool
@@ -138,6 +141,7 @@ type Sched struct {
 type locState struct {
 	name       uint64 // canonical name: hash(first toucher thread, its op index)
 	lastWriter uint64 // hash(thread, op index) of the last write, 0 = initial
+	lwThread   int    // thread of the last write (-1 = none)
 }
 
 var execCounter uint64
@@ -393,14 +397,22 @@ func (s *Sched) afterOp(loc uintptr, write bool, extra uint64) {
 	if loc != 0 {
 		ls = s.locs[loc]
 		if ls == nil {
-			ls = &locState{name: opid}
+			ls = &locState{name: opid, lwThread: -1}
 			s.locs[loc] = ls
 			s.locAcc += mix(ls.name, ls.lastWriter)
 		}
 		t.obs = mix(mix(t.obs, ls.name), ls.lastWriter)
+		if s.cfg.KeyWriterProgress && ls.lwThread >= 0 && ls.lwThread != t.ID {
+			// Also observe how far the last writer has run since: plain (unsynchronised) accesses
+			// that follow a release - use after Put/Unlock/publish - are invisible to the shims, so
+			// two states that differ only in whether the releasing thread has already executed its
+			// next segment must not be merged.
+			t.obs = mix(t.obs, uint64(s.threads[ls.lwThread].nops)+0xabcdef)
+		}
 		if write {
 			s.locAcc -= mix(ls.name, ls.lastWriter)
 			ls.lastWriter = opid
+			ls.lwThread = t.ID
 			s.locAcc += mix(ls.name, ls.lastWriter)
 		}
 	}
@@ -782,8 +794,15 @@ func MutexUnlock(m *MutexState) bool {
 	s.cur.own++
 	s.cur.nops++
 	s.afterOp(uintptr(unsafe.Pointer(m)), true, 8)
+	if PointAfterUnlock {
+		// a point right after the release (use-after-unlock windows)
+		s.point("mutex.unlock.after", 0, nil)
+	}
 	return true
 }
+
+// PointAfterUnlock adds a scheduling point immediately after every Unlock.
+var PointAfterUnlock = true
 
 // MutexRLock / MutexRUnlock for RWMutex.
 func MutexRLock(m *MutexState) bool {
